@@ -32,7 +32,7 @@ def _normalise_split_results(
         list[pd.DataFrame]: List of normalized DataFrames.
 
     """
-    if isinstance(normalise, int | float):
+    if isinstance(normalise, int | float | np.number):
         return [i / normalise for i in results]
     if len(normalise) == len(results):
         return [(i.T / j).T for i, j in zip(results, normalise, strict=True)]
